@@ -74,11 +74,14 @@ Fixpoint head_walk (fuel : nat) (s : sstate) (n : snode) : snode :=
   | S fuel' => match best_child s n with Some c => head_walk fuel' s c | None => n end
   end.
 
-(* the head from a starting node: the end of the walk if it is viable *)
+(* the head from a starting node: LMD-GHOST over the tree of its descendants (inside that tree the start is the lowest node of its
+   root, so the blocks built on that root after an empty-slot start are its children); the end of the walk if it is viable *)
 Definition spec_find_head (s : sstate) (start : ref) : outcome snode :=
   match find_node (ss_tree s) start with
   | None => Err
-  | Some n => let e := head_walk (tree_fuel (ss_tree s)) s n in if s_viable s e then Ok e else Err
+  | Some n =>
+      let s' := mkS (subtree (ss_tree s) start) (ss_just s) (ss_fin s) (ss_pin s) (ss_latest s) (ss_applied s) (ss_bal s) (ss_spe s) (ss_partial s) in
+      let e := head_walk (tree_fuel (ss_tree s')) s' n in if s_viable s e then Ok e else Err
   end.
 
 Definition start_slot (spe : N) (e : epoch) : slot := e * spe.
